@@ -45,7 +45,7 @@ def run(ctx):
         ctx.vhrun(["c13-run", corpus, ctx.path("corpus.rec")])
         vlib.validate_cases(ctx, "SugarTrace", "SugarTrace.cfg", ctx.path("corpus.rec"), label="corpus", **kw)
     f = ctx.path("rnd.ndjson")
-    ctx.vhrun(["c13-random", "5000" if thorough else "400", f, str(L)])
+    ctx.vhrun(["c13-random", "20000" if thorough else "3000", f, str(L)])
     vlib.validate_cases(ctx, "SugarTrace", "SugarTrace.cfg", f, label="random", timeout=3300, **kw)
     ctx.cov["rule"] = ("Seeded random extended-notation grammars (1-3 nonterminals, expression depth <= 3: sequences, nested choices, optionals, */+ lists with and without "
                        "separators incl. two-token separators, set(a|b), set(a&b)) compiled by the real front end; TLC compares, per input, the language of the dumped plain rules "
